@@ -15,6 +15,7 @@ RT_PROPS = {"C12", "C13", "C14", "C19"}
 ENV = dict(os.environ)
 ENV.setdefault("CARGO_NET_OFFLINE", "true")
 ENV["CARGO_TARGET_DIR"] = TARGET
+ENV["VERIF_ROOT"] = ROOT
 ENV.setdefault("CARGO_TERM_COLOR", "never")
 
 
